@@ -110,3 +110,11 @@ Section StochP.
     - intros dist _. destruct (existsb _ _); reflexivity.
   Qed.
 End StochP.
+
+(* tie: the length test of the hand model IS the test of the current source (Src/SrcStoch.v is regenerated from Stochastic._validate on every
+   run); a change of that test in the source breaks this lemma *)
+From GBS Require Src.SrcStoch.
+Lemma validate_is_source bds lft rgt :
+  SrcStoch.validate_bad bds lft rgt =
+  existsb (fun d => match d_trans d with Some l => negb (Nat.eqb (List.length l) (List.length bds)) | None => false end) (bds ++ [lft; rgt])%list.
+Proof. reflexivity. Qed.
